@@ -328,7 +328,7 @@ func c01Run(c *core.Ctx) *core.Result {
 	var fs fsutil.FS
 	if synthetic {
 		view = src
-		fs = newSynthFS(src)
+		fs = newSynthFSReaders(src, R)
 	} else {
 		if err := tree.Materialise(srcDir, src); err != nil {
 			r.Inconclusive = "materialise src: " + err.Error()
